@@ -200,6 +200,9 @@ pub fn real_main() {
             let seed: u64 = args.get(3).and_then(|s| s.parse().ok()).unwrap_or(1);
             std::process::exit(mon::c01::write_corpus(&dir, seed));
         }
+        "coldstart" => {
+            std::process::exit(mon::c17::coldstart_main(&args[2..]));
+        }
         "digest17" => {
             std::process::exit(mon::c17::digest_main(&args[2..]));
         }
